@@ -30,6 +30,9 @@ pub struct GraphCase {
     /// ids and object numbers are assigned in the same stream
     #[serde(default)]
     pub tagged: bool,
+    /// true: nodes whose label is a multiple of 3 also offer one shared zero-sized sentinel object
+    #[serde(default)]
+    pub sentinel: bool,
     /// which reference site to corrupt (fault part) and how
     pub fault_sel: u16,
     pub fault_kind: u8,
@@ -40,6 +43,16 @@ pub struct GraphCase {
 pub struct Fl {
     pub th: bool,
     pub tag: bool,
+    /// every third node also offers one shared zero-sized object (a sentinel living in an Rc of its own)
+    pub zst: bool,
+}
+
+/// a tracked object without any size
+pub struct Marker;
+
+thread_local! {
+    static MARKER_W: RefCell<Option<Rc<Marker>>> = const { RefCell::new(None) };
+    static MARKER_R: RefCell<Vec<Rc<Marker>>> = const { RefCell::new(Vec::new()) };
 }
 
 fn tag_of(label: u32) -> &'static str {
@@ -87,6 +100,11 @@ fn ser_slot<O: BinaryOutput>(node: &Rc<GNode>, ctx: &mut SerializationContext<O>
         if fl.tag {
             desert::BinarySerializer::serialize(&desert::DeduplicatedString(tag_of(node.head.label).to_string()), ctx)?;
         }
+        if fl.zst && node.head.label % 3 == 0 {
+            let m = MARKER_W.with(|m| m.borrow_mut().get_or_insert_with(|| Rc::new(Marker)).clone());
+            // nothing to write for a new one: the marker byte is all there is
+            ctx.store_ref_or_object(&*m)?;
+        }
         let edges = node.edges.borrow();
         ctx.write_var_u32(edges.len() as u32);
         for child in edges.iter() {
@@ -127,6 +145,18 @@ fn de_slot(ctx: &mut DeserializationContext<'_>, all: &mut Vec<Rc<GNode>>, depth
                     return Err(desert::Error::DeserializationFailure(format!("node {label} carries the tag {:?} instead of {:?}", t.0, tag_of(label))));
                 }
             }
+            if fl.zst && label % 3 == 0 {
+                match ctx.try_read_ref()? {
+                    Some(any) => {
+                        any.downcast_ref::<Marker>().ok_or_else(|| desert::Error::DeserializationFailure("marker slot refers to a foreign object".into()))?;
+                    }
+                    None => {
+                        let m = Rc::new(Marker);
+                        ctx.state_mut().store_ref(&*m);
+                        MARKER_R.with(|v| v.borrow_mut().push(m));
+                    }
+                }
+            }
             let n = ctx.read_var_u32()?;
             for _ in 0..n {
                 let child = de_slot(ctx, all, depth + 1, fl)?;
@@ -151,8 +181,9 @@ fn model_bytes(g: &Graph, fl: Fl) -> (Vec<u8>, Vec<(usize, usize)>, usize) {
     let mut ref_sites = Vec::new();
     // iterative pre-order with explicit stack of (node, next edge)
     let mut strings: Vec<&'static str> = Vec::new();
+    let mut marker: Option<u32> = None;
     #[allow(clippy::too_many_arguments)]
-    fn slot(n: usize, g: &Graph, ids: &mut Vec<Option<u32>>, next: &mut u32, out: &mut Vec<u8>, ref_sites: &mut Vec<(usize, usize)>, fl: Fl, strings: &mut Vec<&'static str>) {
+    fn slot(n: usize, g: &Graph, ids: &mut Vec<Option<u32>>, next: &mut u32, out: &mut Vec<u8>, ref_sites: &mut Vec<(usize, usize)>, fl: Fl, strings: &mut Vec<&'static str>, marker: &mut Option<u32>) {
         match ids[n] {
             Some(id) => {
                 let st = out.len();
@@ -181,14 +212,25 @@ fn model_bytes(g: &Graph, fl: Fl) -> (Vec<u8>, Vec<(usize, usize)>, usize) {
                         }
                     }
                 }
+                if fl.zst && g.labels[n] % 3 == 0 {
+                    // the one shared sentinel: introduced by the first node that offers it, cited by the others
+                    match *marker {
+                        Some(id) => var_u32(id, out),
+                        None => {
+                            *next += 1;
+                            *marker = Some(*next);
+                            out.push(0);
+                        }
+                    }
+                }
                 var_u32(g.edges[n].len() as u32, out);
                 for t in &g.edges[n] {
-                    slot(*t, g, ids, next, out, ref_sites, fl, strings);
+                    slot(*t, g, ids, next, out, ref_sites, fl, strings, marker);
                 }
             }
         }
     }
-    slot(0, g, &mut ids, &mut next, &mut out, &mut ref_sites, fl, &mut strings);
+    slot(0, g, &mut ids, &mut next, &mut out, &mut ref_sites, fl, &mut strings, &mut marker);
     (out, ref_sites, next as usize)
 }
 
@@ -271,18 +313,21 @@ pub fn check_graph(c: &GraphCase, acc: &mut Acc, record: bool) -> Verdict {
         return Verdict::Skip;
     }
     let th = c.tracked_header;
-    let fl = Fl { th, tag: c.tagged };
+    let fl = Fl { th, tag: c.tagged, zst: c.sentinel };
+    MARKER_W.with(|m| *m.borrow_mut() = None);
+    MARKER_R.with(|v| v.borrow_mut().clear());
     let (want, ref_sites, n_objects) = model_bytes(g, fl);
-    let n_nodes = if th { n_objects / 2 } else { n_objects };
+    let sentinel_objects = if c.sentinel && reachable(g).iter().zip(&g.labels).any(|(r, l)| *r && l % 3 == 0) { 1 } else { 0 };
+    let n_nodes = if th { (n_objects - sentinel_objects) / 2 } else { n_objects - sentinel_objects };
     let (cyc, shared) = classify(g);
     if record {
         let class = format!("{}{}", match (cyc, shared) {
             (true, _) => "cyclic",
             (false, true) => "shared, acyclic",
             _ => "tree",
-        }, if th { " / embedded header object tracked too" } else { "" }).to_string() + if c.tagged { " / deduplicated tags in the bodies" } else { "" };
+        }, if th { " / embedded header object tracked too" } else { "" }).to_string() + if c.tagged { " / deduplicated tags in the bodies" } else { "" } + if c.sentinel { " / shared zero-sized sentinel" } else { "" };
         let class = class.as_str();
-        acc.case(class, hash_json(&(g, th, c.tagged)), cyc || shared);
+        acc.case(class, hash_json(&(g, th, c.tagged, c.sentinel)), cyc || shared);
         if acc.wants_sample(class) {
             acc.sample(class, json!({"labels": g.labels, "edges": g.edges, "bytes_hex": hex(&want[..want.len().min(64)])}));
         }
@@ -362,10 +407,10 @@ pub fn check_graph(c: &GraphCase, acc: &mut Acc, record: bool) -> Verdict {
             {
                 let k = n_objects + 3;
                 let chain = Graph { labels: (0..k as u32).collect(), edges: (0..k).map(|i| if i + 1 < k { vec![i + 1] } else { vec![] }).collect() };
-                let (cb, _, _) = model_bytes(&chain, Fl { th: false, tag: false });
+                let (cb, _, _) = model_bytes(&chain, Fl { th: false, tag: false, zst: false });
                 let mut prior = Vec::new();
                 let mut pctx = DeserializationContext::new(&cb);
-                let _ = guarded(|| de_slot(&mut pctx, &mut prior, 0, Fl { th: false, tag: false }).map(|_| ()));
+                let _ = guarded(|| de_slot(&mut pctx, &mut prior, 0, Fl { th: false, tag: false, zst: false }).map(|_| ()));
                 drop(pctx);
                 unlink(&prior);
             }
@@ -440,7 +485,7 @@ pub fn run_c10(cx: &Cx) -> PropResult {
                 if idx % cx.shards != shard {
                     return true;
                 }
-                let c = GraphCase { g: g.clone(), tracked_header: idx % 3 == 0, tagged: idx % 4 == 1, fault_sel: (idx * 7919) as u16, fault_kind: idx as u8 };
+                let c = GraphCase { g: g.clone(), tracked_header: idx % 3 == 0, tagged: idx % 4 == 1, sentinel: idx % 5 == 2, fault_sel: (idx * 7919) as u16, fault_kind: idx as u8 };
                 match check_graph(&c, acc, true) {
                     Verdict::Fail(e) => {
                         acc.violation(e, to_json(&c));
@@ -453,7 +498,7 @@ pub fn run_c10(cx: &Cx) -> PropResult {
                 return;
             }
         }
-        let strat = (random_graph_strategy(), any::<bool>(), any::<bool>(), any::<u16>(), any::<u8>()).prop_map(|(g, tracked_header, tagged, fault_sel, fault_kind)| GraphCase { g, tracked_header, tagged, fault_sel, fault_kind }).boxed();
+        let strat = (random_graph_strategy(), any::<bool>(), any::<bool>(), prop::bool::weighted(0.3), any::<u16>(), any::<u8>()).prop_map(|(g, tracked_header, tagged, sentinel, fault_sel, fault_kind)| GraphCase { g, tracked_header, tagged, sentinel, fault_sel, fault_kind }).boxed();
         if drive(tag_seed(derive_seed(cx.seed, cx.prop, shard as u64, 0), 0), &strat, per_shard, acc, &|c: &GraphCase| to_json(c), &mut |c, a, r| check_graph(c, a, r)) {
             return;
         }
@@ -463,7 +508,7 @@ pub fn run_c10(cx: &Cx) -> PropResult {
     let mut r = PropResult::new(
         acc,
         "exploration",
-        "graphs: EXHAUSTIVELY every rooted digraph with 1-4 nodes whose nodes have ordered out-edge lists of length <= 2 over any targets (self-loops, diamonds, back-edges, parallel edges), all nodes reachable; randomly: 1-60 nodes (one case in eight: 100-400 nodes, so that object numbers cross the one-byte var-int boundary), out-degree <= 5. A harness codec written in safe code offers node addresses as identities (in one third / one half of the cases it additionally offers each node's embedded header, a distinct object of another type that lives at the node's own address, which must get its own number; in a quarter / half of the cases every node body also carries one of four DeduplicatedString tags, so that string ids and object numbers are assigned side by side in one stream) (store_ref_or_object on the writer; state_mut().store_ref right after allocation and try_read_ref + downcast on the reader). Oracles: bytes == model (first offer: 00 + body, later offers: var-u32 of the 1-based first-encounter number, pre-order), objects written == reachable nodes, encoding terminates on cycles; decoded graph isomorphic by a simultaneous walk (labels, ordered edges; two edges reach the same original node iff the decoded targets are pointer-equal); a reference rewritten to objects+1, objects+1000 or u32::MAX decodes to Err(InvalidRefId), also right after a larger stream was decoded on the same thread, and so does a stream whose very first marker is rewritten to an object number. Non-trivial = a cycle or a node with in-degree >= 2. Tracked objects as record fields: a hand-expanded derive of struct Holder { a: u8, g1: Slot, s: String, g2: Slot, g3: Slot } (Slot offers a node of one shared graph) as a version-0 record and with g2 / g3 / s introduced by FieldAdded steps (so the slots live in different chunks), followed by one more byte in the stream; and through the REAL derive macro, struct DHolder { g3, a, g2, g1, s } with g2 and g3 added by evolution steps and declared before older fields; bytes must equal the model (markers and back-references inside the chunk of their field, objects numbered in field order) and decoding must restore the sharing between the fields.",
+        "graphs: EXHAUSTIVELY every rooted digraph with 1-4 nodes whose nodes have ordered out-edge lists of length <= 2 over any targets (self-loops, diamonds, back-edges, parallel edges), all nodes reachable; randomly: 1-60 nodes (one case in eight: 100-400 nodes, so that object numbers cross the one-byte var-int boundary), out-degree <= 5. A harness codec written in safe code offers node addresses as identities (in one third / one half of the cases it additionally offers each node's embedded header, a distinct object of another type that lives at the node's own address, which must get its own number; in a quarter / half of the cases every node body also carries one of four DeduplicatedString tags, so that string ids and object numbers are assigned side by side in one stream; in a fifth / a third of the cases the nodes with a label divisible by 3 also offer one shared zero-sized sentinel object) (store_ref_or_object on the writer; state_mut().store_ref right after allocation and try_read_ref + downcast on the reader). Oracles: bytes == model (first offer: 00 + body, later offers: var-u32 of the 1-based first-encounter number, pre-order), objects written == reachable nodes, encoding terminates on cycles; decoded graph isomorphic by a simultaneous walk (labels, ordered edges; two edges reach the same original node iff the decoded targets are pointer-equal); a reference rewritten to objects+1, objects+1000 or u32::MAX decodes to Err(InvalidRefId), also right after a larger stream was decoded on the same thread, and so does a stream whose very first marker is rewritten to an object number. Non-trivial = a cycle or a node with in-degree >= 2. Tracked objects as record fields: a hand-expanded derive of struct Holder { a: u8, g1: Slot, s: String, g2: Slot, g3: Slot } (Slot offers a node of one shared graph) as a version-0 record and with g2 / g3 / s introduced by FieldAdded steps (so the slots live in different chunks), followed by one more byte in the stream; and through the REAL derive macro, struct DHolder { g3, a, g2, g1, s } with g2 and g3 added by evolution steps and declared before older fields; bytes must equal the model (markers and back-references inside the chunk of their field, objects numbered in field order) and decoding must restore the sharing between the fields.",
     );
     r.exhaustive = Some(true);
     r.extra = json!({"exhaustive_note": "exhaustive for graphs of <= 4 nodes with out-degree <= 2; larger graphs are sampled", "exhaustive_max_nodes": max_n});
@@ -491,13 +536,13 @@ thread_local! {
 pub struct Slot(pub Rc<GNode>);
 impl desert::BinarySerializer for Slot {
     fn serialize<O: BinaryOutput>(&self, ctx: &mut SerializationContext<O>) -> desert::Result<()> {
-        ser_slot(&self.0, ctx, Fl { th: false, tag: false })
+        ser_slot(&self.0, ctx, Fl { th: false, tag: false, zst: false })
     }
 }
 impl desert::BinaryDeserializer for Slot {
     fn deserialize(ctx: &mut DeserializationContext<'_>) -> desert::Result<Self> {
         let mut all = DECODED.with(|d| std::mem::take(&mut *d.borrow_mut()));
-        let r = de_slot(ctx, &mut all, 0, Fl { th: false, tag: false });
+        let r = de_slot(ctx, &mut all, 0, Fl { th: false, tag: false, zst: false });
         DECODED.with(|d| *d.borrow_mut() = all);
         r.map(Slot)
     }
